@@ -12,7 +12,7 @@ s=re.sub(r"\[\[bench\]\]\nname = \"[^\"]*\"\nharness = false\n+","",s)
 open(sys.argv[2],"w").write(s)
 PY
 cp $REPO/Cargo.lock $W/
-cat /verif/kani/harness_unix.rs >> $W/src/platform/unix/mod.rs
+python3 -c "import sys; sys.path.insert(0,'/verif'); from vf import kani; sys.stdout.write(kani.expand_extracts(open('/verif/kani/harness_unix.rs').read(), '$REPO'))" >> $W/src/platform/unix/mod.rs
 cd $W
 H=""
 for h in "$@"; do H="$H --harness $h"; done
